@@ -38,7 +38,7 @@ Fixpoint utf8_fold (acc : N) (ds : list (option N)) : option N :=
 
 Definition decode_item (i : string_item) : dres N :=
   match i with
-  | SIChar c => DOk c
+  | SIChar c => if is_scalar c then DOk c else DPanic   (* a Rust `char` is always a scalar value *)
   | SISimple e => DOk (simple_char e)
   | SIHexa c1 c2 =>
     match hex_digit c1, hex_digit c2 with
